@@ -1,7 +1,7 @@
 #!/usr/bin/env python3
 """Developer aid: mechanical, semantics-preserving rewrites of the whole source tree (one kind per variant), applied to a scratch copy,
 followed by all 20 checks.  Any VIOLATION / ANALYSIS-ERROR beyond the base run is a false alarm of the machinery.
-usage: tools/auto_benign.py [kind ...]     kinds: rename flip rettemp kwrev ifexp2if augassign earlyret"""
+usage: tools/auto_benign.py [kind ...]     kinds: pos2kw unpack rename flip rettemp kwrev ifexp2if augassign earlyret"""
 import ast, os, shutil, subprocess, sys, tempfile
 VERIF = os.path.dirname(os.path.dirname(os.path.abspath(__file__)))
 ALL = ["C%02d" % i for i in range(1, 21)]
@@ -102,7 +102,46 @@ class EarlyRet(ast.NodeTransformer):
         return fn
 
 
-KINDS = {"rename": Rename, "flip": Flip, "rettemp": RetTemp, "kwrev": KwRev, "ifexp2if": IfExp2If, "augassign": AugAssign, "earlyret": EarlyRet}
+class Pos2Kw(ast.NodeTransformer):
+    """f(a, b) -> f(x=a, y=b) for calls of module-level functions / dataclass-like classes of the same module whose signature is plain
+    (no positional-only, no *args); the first positional argument is kept positional (it is often the subject)."""
+    def __init__(self):
+        self.sigs = {}
+
+    def visit_Module(self, mod):
+        for st in mod.body:
+            if isinstance(st, ast.FunctionDef) and not st.args.posonlyargs and not st.args.vararg and not st.decorator_list:
+                self.sigs[st.name] = [a.arg for a in st.args.args]
+        self.generic_visit(mod)
+        return mod
+
+    def visit_Call(self, node):
+        self.generic_visit(node)
+        if isinstance(node.func, ast.Name) and node.func.id in self.sigs and not any(isinstance(a, ast.Starred) for a in node.args) \
+                and all(k.arg is not None for k in node.keywords):
+            names = self.sigs[node.func.id]
+            if 2 <= len(node.args) <= len(names):
+                extra = [ast.keyword(arg=names[i], value=a) for i, a in enumerate(node.args) if i >= 1]
+                if not ({k.arg for k in node.keywords} & {k.arg for k in extra}):
+                    node.args = node.args[:1]
+                    node.keywords = extra + node.keywords
+        return node
+
+
+class Unpack(ast.NodeTransformer):
+    """`a, b = f(x)`  ->  `_t = f(x); a = _t[0]; b = _t[1]` for plain-name targets and call right-hand sides"""
+    def visit_Assign(self, node):
+        if len(node.targets) == 1 and isinstance(node.targets[0], ast.Tuple) and isinstance(node.value, ast.Call) \
+                and all(isinstance(e, ast.Name) for e in node.targets[0].elts) and 2 <= len(node.targets[0].elts) <= 4:
+            tmp = f"_t{node.lineno}"
+            out = [ast.Assign(targets=[ast.Name(id=tmp, ctx=ast.Store())], value=node.value, lineno=node.lineno)]
+            for i, e in enumerate(node.targets[0].elts):
+                out.append(ast.Assign(targets=[ast.Name(id=e.id, ctx=ast.Store())], value=ast.Subscript(value=ast.Name(id=tmp, ctx=ast.Load()), slice=ast.Constant(value=i), ctx=ast.Load()), lineno=node.lineno))
+            return out
+        return node
+
+
+KINDS = {"pos2kw": Pos2Kw, "unpack": Unpack, "rename": Rename, "flip": Flip, "rettemp": RetTemp, "kwrev": KwRev, "ifexp2if": IfExp2If, "augassign": AugAssign, "earlyret": EarlyRet}
 
 
 def run_checks(repo):
